@@ -208,6 +208,13 @@ class _Time:
         return getattr(self._real, n)
 
 
+def _deep(n, j):
+    """raise TaskError(j) from n frames further down"""
+    if n <= 0:
+        raise TaskError(j)
+    _deep(n - 1, j)
+
+
 def _refusing(pid, time_accepted):
     raise RuntimeError('the accept callback refuses this job')
 
@@ -268,6 +275,8 @@ class WorkerAdapter:
                 return ('ok', j)
             if kind == 'raise':
                 raise TaskError(j)
+            if kind == 'raise_deep':
+                _deep(max(200, sys.getrecursionlimit() - 120), j)
             if kind == 'baseexc':
                 raise TaskBase(j)
             if kind == 'unpicklable':
@@ -426,7 +435,9 @@ class WorkerAdapter:
         typ, args = m
         if typ == bp.ACK:
             job, i, t, pid, fd = args
-            return {'t': 'ACK', 'j': job, 'pid': pid, 'time': int(round(t - CLOCK0))}
+            which = 'none' if fd is None else 'syn' if (self.synq is not None and fd == self.synq._writer.fileno()) \
+                else 'inq' if fd == self.inq._writer.fileno() else 'other'
+            return {'t': 'ACK', 'j': job, 'pid': pid, 'time': int(round(t - CLOCK0)), 'fd': which}
         if typ == bp.READY:
             job, i, (ok, val), fd = args
             if ok:
